@@ -304,7 +304,7 @@ TB_KIT = ["vp_nondet.c", "vp_mem.c", "vp_alloc_c16.c", "vp_cksum.c"]
 TB_UW = dict(VARINT_UW)
 TB_UW.update({"vp_ref_bytewise.0": 9, "vp_ref_block_decode.0": 9, "vp_ref_block_decode.1": 5,
               "vp_fp.0": 4, "vp_pol_build.0": 4, "strlen.0": 10})
-for (n, ks, bs, r, comp, flt, ns, tier) in ((1, (1,), 1, 1, 0, 0, 0, "quick"), (2, (1, 1), 1, 1, 0, 0, 1, "quick"), (3, (1, 1, 1), 1, 2, 0, 0, 1, "thorough"),
+for (n, ks, bs, r, comp, flt, ns, tier) in ((1, (1,), 1, 1, 0, 0, 0, "quick"), (2, (1, 1), 1, 2, 0, 0, 1, "quick"), (3, (1, 1, 1), 1, 2, 0, 0, 1, "thorough"),
                                             (2, (1, 1), 4096, 1, 0, 0, 0, "quick"), (2, (1, 1), 4096, 2, 0, 0, 1, "thorough"),
                                             (1, (1,), 1, 1, 1, 0, 1, "quick"), (1, (1,), 1, 1, 0, 1, 1, "quick"), (2, (1, 1), 1, 1, 0, 1, 1, "thorough"),
                                             (2, (1, 1), 1, 1, 0, 0, 0, "thorough"),
